@@ -520,6 +520,9 @@ void reb_collision_search(struct reb_simulation* const r){
     if (tree_particles_flagged && r->tree_root){
         // Remove the flagged particles now, so that the particle array is
         // consistent (no NaN placeholders) at the end of the timestep.
+        // A merged particle is placed at the centre of mass, which can round
+        // to just outside the box: wrap it first, as before every other tree update.
+        reb_boundary_check(r);
         reb_simulation_update_tree(r);
     }
 }
